@@ -91,7 +91,8 @@ def float_of(s: str) -> float:
 
 
 def lim(s: str):
-    """a limit token: an int, or `d` = do not name the limit (the class's default applies)"""
+    """a limit token: an int, `d` = do not name the limit (the class's default applies), `T` / `F` = the bools True /
+    False (ints of value 1 / 0 by the language: `range(True + 1)` runs twice)"""
     return None if s == "d" else intd(s)
 
 
@@ -100,6 +101,8 @@ def flo(s: str):
 
 
 def intd(s: str) -> int:
+    if s in ("T", "F"):
+        return s == "T"
     try:
         return int(s)
     except ValueError:
@@ -229,11 +232,23 @@ class C18(Prop):
 
     # --- generation --------------------------------------------------------------------------------------------
     LIMS = [0, 0, 1, 1, 2, 2, 3, 3, 4, 4, 5, 6, -1, -3]
+    BIG = [7, 8, 9, 12, 16, 17, 31, 32, 33]       # budgets past any small internal threshold (CAP = 64 stays above)
+    BOOLS = ["T", "F"]
+
+    def _lim(self, rng, extra=()):
+        """a limit: mostly small, 5 % large, 3 % a bool"""
+        r = rng.random()
+        if r < 0.05:
+            return rng.choice(self.BIG)
+        if r < 0.08:
+            return rng.choice(self.BOOLS)
+        return rng.choice(self.LIMS + list(extra))
     DECAYS = ["1/10", "1/10", "0", "1/4", "1/2", "1", "2", "1/8", "3/10", "-1/4", "1/3", "1/10", "1/4", "inf", "-inf", "nan"]
     THRS = ["9/10", "9/10", "1/2", "1/2", "1/4", "0", "1", "2/3", "1/3", "3/4", "-1", "2", "7/10", "1/10", "9/10", "1/2",
             "inf", "-inf", "nan"]
 
     def _heal_scripts(self, rng, mr, real, fam=None):
+        mr = intd(str(mr))
         n = max(mr, 0) + 3
         fam = fam or rng.choice(["never", "atk", "alt", "echo", "raise", "long", "random", "random", "reassign"])
         k = rng.randint(0, n)
@@ -261,7 +276,7 @@ class C18(Prop):
         return gs or "-", fs or "-"
 
     def _gen_heal(self, rng):
-        mr = rng.choice(self.LIMS)
+        mr = self._lim(rng)
         decay = rng.choice(self.DECAYS)
         real = rng.random() < 0.35
         if rng.random() < 0.08:           # limit / decay not named: the defaults of the class
@@ -274,16 +289,18 @@ class C18(Prop):
         """A history on ONE ChaperoneLoop: public attributes re-assigned between the calls (limit lowered / raised after
         construction, decay changed, generator / chaperone replaced by a new callable) and every call judged by the
         limit in force when it is made."""
-        mr = rng.choice(self.LIMS)
+        mr = self._lim(rng)
         real = rng.random() < 0.3
         lines = [f"loop {mr} {rng.choice(self.DECAYS)} {'real' if real else 'stub'}"]
+        mr = intd(str(mr))
         if rng.random() < 0.1:
             mr, lines = 3, [f"loop d d {'real' if real else 'stub'}"]
         for _ in range(rng.choice([1, 2, 2, 3, 4])):
             r = rng.random()
             if r < 0.65:
-                mr = rng.choice(self.LIMS) if rng.random() < 0.6 else max(-1, mr + rng.choice([-3, -2, -1, -1, 1, 2]))
-                lines.append(f"hset mr {mr}")
+                tok = self._lim(rng) if rng.random() < 0.6 else max(-1, mr + rng.choice([-3, -2, -1, -1, 1, 2]))
+                lines.append(f"hset mr {tok}")
+                mr = intd(str(tok))
             if rng.random() < 0.25:
                 lines.append(f"hset decay {rng.choice(self.DECAYS)}")
             if rng.random() < 0.2:
@@ -294,6 +311,7 @@ class C18(Prop):
         return lines
 
     def _gen_supervise(self, rng, mreg, ms):
+        mreg, ms = intd(str(mreg)), intd(str(ms))
         nsp = max(mreg, 0) + 2
         nst = max(ms, 0) + 2
         fam = rng.choice(["never", "atk", "same", "two", "near", "raise", "random", "random", "lower", "reassign"])
@@ -334,7 +352,9 @@ class C18(Prop):
         return f"supervise {fs} {'|'.join(ss)} {ms_}"
 
     def _gen_swarm(self, rng):
-        mreg, ms = rng.choice(self.LIMS), rng.choice(self.LIMS + [10])
+        mreg, ms = self._lim(rng), self._lim(rng, [10])
+        if intd(str(mreg)) > 6 and intd(str(ms)) > 6:
+            ms = rng.choice([0, 1, 2])
         lines = [f"swarm {mreg} {ms} {rng.choice(self.THRS)}"]
         if rng.random() < 0.08:
             which = rng.choice(["dd", "d.", ".d"])
@@ -345,11 +365,14 @@ class C18(Prop):
             if live and (i > 0 or rng.random() < 0.5):
                 r = rng.random()
                 if r < 0.5:
-                    mreg = rng.choice(self.LIMS)
+                    mreg = self._lim(rng)
                     lines.append(f"sset mreg {mreg}")
                 if r > 0.3:
-                    ms = rng.choice(self.LIMS + [10])
+                    ms = self._lim(rng, [10])
                     lines.append(f"sset ms {ms}")
+                if intd(str(mreg)) > 6 and intd(str(ms)) > 6:
+                    ms = 1
+                    lines.append("sset ms 1")
                 if rng.random() < 0.25:
                     lines.append(f"sset thr {rng.choice(self.THRS)}")
                 if rng.random() < 0.2:
@@ -358,11 +381,11 @@ class C18(Prop):
         return lines
 
     def _gen_tools(self, rng, op="tools"):
-        mi = rng.choice(self.LIMS + [10])
+        mi = self._lim(rng, [10])
         named = rng.random() >= 0.06          # else: max_iterations is not named (default 10)
         if not named:
             mi = 10
-        n = max(mi, 0) + 2
+        n = max(intd(str(mi)), 0) + 2
         fam = rng.choice(["forever", "forever", "stopat", "none", "raise", "random", "ghost"])
         k = rng.randint(0, n)
         # h / m: the provider asks for a tool that is registered nowhere (alone / next to a registered one)
@@ -404,6 +427,14 @@ class C18(Prop):
                 yield {"lines": [f"gtools {rng.choice([0, 1, 2, 3, 5, -1])} "
                                  f"{''.join(rng.choice('01230') for _ in range(rng.randint(1, 5)))}"],
                        "note": "tool_calls as a generator object (oracle only)"}
+                continue
+            if i % 50 == 13:
+                yield {"lines": [f"reheal {rng.choice([0, 1, 2, 3, 4, 6, -1])} {rng.choice('vi')}"],
+                       "note": "re-entrant generator (oracle only)"}
+                continue
+            if i % 50 == 38:
+                yield {"lines": [f"resuper {rng.choice([0, 1, 2, 3, 5, -1])} {rng.choice([0, 1, 2, 3, 6])} {rng.choice('sn')}"],
+                       "note": "re-entrant worker (oracle only)"}
                 continue
             if i % 25 == 7:
                 yield {"lines": [f"retools {rng.choice([0, 1, 2, 3, 4, 5, 6, -1])} {rng.choice([0, 1, 1, 2])} "
@@ -1067,6 +1098,12 @@ class C18(Prop):
             nuc = st["nuc"]
             nuc.provider = provider
         exc = res = None
+        # a ProviderConfig is handed through for a third of the lines (the budget must not depend on it)
+        salt = zlib.crc32(" ".join(t).encode()) % 6
+        if salt < 2:
+            from operon_ai.providers import ProviderConfig
+            kw_mi = dict(kw_mi, config=ProviderConfig(temperature=0.0, max_tokens=1 if salt else 4096, timeout_seconds=0.0,
+                                                      system_prompt="stop after one round" if salt else None))
         try:
             res = nuc.transcribe_with_tools("Q<7>", mito, auto_execute=ae, **kw_mi)
         except Exception as e:   # noqa
@@ -1147,6 +1184,112 @@ class C18(Prop):
         except Exception as e:   # noqa
             exc = e
         return "ok", {"kind": "retools", "mi": mi, "outer": outer, "inners": inners, "exc": exc}
+
+    # --- oracle-only search: callbacks that re-enter the loop that is calling them ---------------------------------
+    def _reheal(self, t):
+        """`reheal <maxRetries> <v|i>`: every generator call of the outer heal() re-enters heal() on the SAME loop (the
+        inner generator does not re-enter); the inner run is valid at once (v: one call) or never (i: the whole budget).
+        Outside the model's adversary assumption; a loop that keeps its attempt counter / error context on the instance
+        loses its bound here.  Each run - the outer one and every inner one - has its own budget."""
+        mr, inner_valid = intd(t[1]), t[2] == "v"
+        runs = [{"n": 0, "ctx": []}]          # runs[0] = the outer call
+        st = {"depth": 0, "calls": 0}
+        prop = self
+
+        def gen(prompt, error_context=None):
+            st["calls"] += 1
+            if st["calls"] > 400:
+                raise Runaway("generator")
+            cur = runs[0] if st["depth"] == 0 else runs[-1]
+            cur["n"] += 1
+            cur["ctx"].append(error_context)
+            if st["depth"] == 0:
+                st["depth"] = 1
+                runs.append({"n": 0, "ctx": []})
+                try:
+                    loop.heal("inner")
+                finally:
+                    st["depth"] = 0
+                return f"outer <{cur['n']}>"
+            return f"inner <{cur['n']}>"
+
+        class Chap(prop.Chaperone):
+            def fold_enhanced(self, raw, schema, *a, **kw):
+                ok = inner_valid and isinstance(raw, str) and raw.startswith("inner")
+                return StubFold(ok, 1.0, None if ok else f"err <{900 + st['calls']}>", 0, raw)
+        loop = self.cl.ChaperoneLoop(generator=gen, chaperone=Chap(silent=True), schema=self.S, max_retries=mr, silent=True)
+        exc = None
+        try:
+            loop.heal("P<7>")
+        except Exception as e:   # noqa
+            exc = e
+        return "ok", {"kind": "reheal", "mr": mr, "runs": runs, "exc": exc}
+
+    def _oracle_reheal(self, info, V):
+        mr = info["mr"]
+        for i, r in enumerate(info["runs"]):
+            who = "the outer call" if i == 0 else f"inner call {i}"
+            if r["n"] > max(0, mr + 1):
+                V("heal_calls_le_retries_succ_reentrant", f"<= {max(0, mr + 1)} generator calls of {who}", r["n"])
+            if r["ctx"] and r["ctx"][0] is not None:
+                V("first_attempt_sees_no_error_reentrant", f"None for the first attempt of {who}", r["ctx"][0])
+        if info["exc"] is not None:
+            V("heal_returns_reentrant", "a result", repr(info["exc"]))
+
+    def _resuper(self, t):
+        """`resuper <maxRegen> <maxSteps> <s|n>`: the first step of every worker of the outer supervise() re-enters
+        supervise() on the SAME swarm; inner workers succeed at their first step (s) or never (n).  Oracle only."""
+        mreg, ms, inner_ok = intd(t[1]), intd(t[2]), t[3] == "s"
+        runs = [{"spawns": []}]
+        st = {"depth": 0, "calls": 0}
+        prop = self
+
+        class W(prop.rs.SimpleWorker):
+            def __init__(self, name, run, depth):
+                super().__init__(id=name, work_function=lambda task, memory: "")
+                self.run, self.depth, self.k = run, depth, len(run["spawns"]) - 1
+
+            def step(self, task):
+                st["calls"] += 1
+                if st["calls"] > 2000:
+                    raise Runaway("step")
+                self.run["spawns"][self.k] += 1
+                if self.depth == 0 and self.run["spawns"][self.k] == 1:
+                    st["depth"] = 1
+                    runs.append({"spawns": []})
+                    try:
+                        sw.supervise("inner")
+                    finally:
+                        st["depth"] = 0
+                if self.depth == 1 and inner_ok:
+                    return "DONE"
+                return f"out <{st['calls']}>"
+
+        def fac(name, hints):
+            run = runs[0] if st["depth"] == 0 else runs[-1]
+            run["spawns"].append(0)
+            if len(run["spawns"]) > CAP:
+                raise Runaway("factory")
+            return W(name, run, st["depth"])
+        sw = self.rs.RegenerativeSwarm(worker_factory=fac, summarizer=lambda mem: [], max_regenerations=mreg,
+                                       max_steps_per_worker=ms, silent=True)
+        exc = None
+        try:
+            sw.supervise("T<7>")
+        except Exception as e:   # noqa
+            exc = e
+        return "ok", {"kind": "resuper", "mreg": mreg, "ms": ms, "runs": runs, "exc": exc}
+
+    def _oracle_resuper(self, info, V):
+        mreg, ms = info["mreg"], info["ms"]
+        for i, r in enumerate(info["runs"]):
+            who = "the outer call" if i == 0 else f"inner call {i}"
+            if len(r["spawns"]) > max(0, mreg + 1):
+                V("swarm_workers_le_regen_succ_reentrant", f"<= {max(0, mreg + 1)} workers of {who}", len(r["spawns"]))
+            if any(k > max(0, ms) for k in r["spawns"]):
+                V("swarm_steps_le_max_reentrant", f"<= {max(0, ms)} steps on each worker of {who}", r["spawns"])
+        if info["exc"] is not None:
+            V("swarm_returns_reentrant", "a result", repr(info["exc"]))
 
     def _gtools(self, t):
         """Oracle-only search: the provider returns `tool_calls` as a GENERATOR OBJECT (truthy even when it yields
@@ -1266,6 +1409,10 @@ class C18(Prop):
                 o, info = self._retools(t)
             elif len(t) == 3 and t[0] == "gtools":
                 o, info = self._gtools(t)
+            elif len(t) == 3 and t[0] == "reheal":
+                o, info = self._reheal(t)
+            elif len(t) == 4 and t[0] == "resuper":
+                o, info = self._resuper(t)
             else:
                 o = "bad-op"
             obs.append(o)
@@ -1293,6 +1440,10 @@ class C18(Prop):
                 self._oracle_retools(info, V)
             elif info["kind"] == "gtools":
                 self._oracle_gtools(info, V)
+            elif info["kind"] == "reheal":
+                self._oracle_reheal(info, V)
+            elif info["kind"] == "resuper":
+                self._oracle_resuper(info, V)
             else:
                 self._oracle_tools(info, V)
         return out
